@@ -2,9 +2,16 @@
 (* One endpoint of the libtw2 connection layer (net/src/connection.rs for     *)
 (* Teeworlds 0.6 / DDNet, net/src/connection7.rs for 0.7) as pure operators   *)
 (* on endpoint records.  One operator per public call / critical section:     *)
-(*   ConnectOp, SendOp, FlushOp, TickOp, DisconnectOp, ConnlessOp, FeedOp.    *)
+(*   ConnectOp, SendOp, FlushOp, TickOp, DisconnectOp, ConnlessOp, FeedOp,    *)
+(*   ResetOp, AcceptTokenOp.                                                  *)
 (* Each returns [x |-> endpoint', outs |-> datagrams sent (in order),         *)
-(*               evs |-> events handed to the application, res |-> result].   *)
+(*               evs |-> events handed to the application, res |-> result,    *)
+(*               w |-> class of the warning reported ("-": none)].            *)
+(* Every call that hands datagrams to the send callback takes the argument    *)
+(* `k`: the callback reports an error for the k-th datagram of this call      *)
+(* (k = 0: it never does).  The refused datagram is not sent; what the code   *)
+(* has already done at that point and what it still does afterwards is        *)
+(* modelled per call (error paths of connection.rs / connection7.rs).         *)
 (* Real protocol constants are used throughout; only the *sets* explored by   *)
 (* the model-checking configurations are small.                               *)
 EXTENDS Integers, Sequences, FiniteSets, TLC, SequencesExt
@@ -60,51 +67,64 @@ ChunksDg(x) == [k |-> "chunks", tok |-> OutTok(x), ack |-> x.ack, rr |-> x.rr, c
 CtrlT(x, c, tok, rt, r) == [k |-> "ctrl", c |-> c, tok |-> tok, rt |-> rt, ack |-> OutAck(x), r |-> r]
 Ctrl(x, c) == CtrlT(x, c, OutTok(x), "-", -1)
 
-R(x, outs, evs, res) == [x |-> x, outs |-> outs, evs |-> evs, res |-> res]
-None(x) == R(x, <<>>, <<>>, "ok")
+\* ----------------------------------------------------------------- the send callback
+\* o = [outs, failed]: datagrams the callback accepted so far in this call / it has reported an error.
+\* The k-th datagram handed to the callback in one call is refused (k = 0: none is).
+O0 == [outs |-> <<>>, failed |-> FALSE]
+PutDg(o, d, k) == IF Len(o.outs) + (IF o.failed THEN 1 ELSE 0) + 1 = k
+                THEN [o EXCEPT !.failed = TRUE] ELSE [o EXCEPT !.outs = Append(@, d)]
 
-\* OnlineState::flush
-Flush(x) == IF ~CanSend(x) THEN <<x, <<>>>>
-            ELSE <<[x EXCEPT !.rr = FALSE, !.pkt = <<>>, !.pnv = <<>>], <<ChunksDg(x)>>>>
+Ret(x, o, evs, w) == [x |-> x, outs |-> o.outs, evs |-> evs, res |-> IF o.failed THEN "callback" ELSE "ok", w |-> w]
+R(x, outs, evs, res) == [x |-> x, outs |-> outs, evs |-> evs, res |-> res, w |-> "-"]
+None(x) == R(x, <<>>, <<>>, "ok")
+Warned(x, w) == [None(x) EXCEPT !.w = w]
+
+\* OnlineState::flush: the queue is cleared whether or not the callback took the datagram. Returns <<x', o'>>.
+Flush(x, o, k) == IF ~CanSend(x) THEN <<x, o>>
+                  ELSE <<[x EXCEPT !.rr = FALSE, !.pkt = <<>>, !.pnv = <<>>], PutDg(o, ChunksDg(x), k)>>
 
 \* Connection::resend.  `i` counts chunks already re-queued (from the oldest); `fuel` is the loop
 \* variant: every flush inside the loop must make room, so at most one flush per queued chunk
 \* (+1 for the retained non-vital part) can happen.  Running out of fuel = the loop does not terminate.
-RECURSIVE ResendLoop(_, _, _, _)
-ResendLoop(x, i, outs, fuel) ==
-  IF i >= Len(x.rq) THEN <<x, outs>>
+\* A flush whose datagram the callback refuses ends the call (`?`): the chunks not yet re-queued wait
+\* for the next resend timeout (all timers were restarted before the loop).
+RECURSIVE ResendLoop(_, _, _, _, _)
+ResendLoop(x, i, o, fuel, k) ==
+  IF i >= Len(x.rq) THEN <<x, o>>
   ELSE LET c == x.rq[Len(x.rq) - i] IN
        IF CanFit(x.pkt, c.sz, TRUE)
        THEN ResendLoop([x EXCEPT !.pkt = Append(@, [v |-> TRUE, seq |-> c.seq, rs |-> TRUE, id |-> c.id, sz |-> c.sz])],
-                       i + 1, outs, fuel)
+                       i + 1, o, fuel, k)
        ELSE IF fuel = 0 THEN Assert(FALSE, "C02: resend loop does not terminate")
-            ELSE LET f == Flush([x EXCEPT !.sendT = SendTO])
-                 IN ResendLoop(f[1], i, outs \o f[2], fuel - 1)
-Resend(x) ==
-  IF x.rq = <<>> THEN <<x, <<>>>>
+            ELSE LET f == Flush([x EXCEPT !.sendT = SendTO], o, k)
+                 IN IF f[2].failed THEN f ELSE ResendLoop(f[1], i, f[2], fuel - 1, k)
+Resend(x, o, k) ==
+  IF x.rq = <<>> THEN <<x, o>>
   ELSE ResendLoop([x EXCEPT !.pkt = x.pnv, !.rq = [j \in 1..Len(x.rq) |-> [x.rq[j] EXCEPT !.t = ResendTO]]],
-                  0, <<>>, Len(x.rq) + 2)
+                  0, o, Len(x.rq) + 2, k)
 
-\* Connection::tick_action
-TickAction(x) ==
-  CASE x.st = "Tok"  -> <<[x EXCEPT !.sendT = SendTO], <<CtrlT(x, "Token", "FF", x.own, -1)>>>>
+\* Connection::tick_action: the send timer is re-armed before the datagram is handed to the callback
+TickAction(x, o, k) ==
+  CASE x.st = "Tok"  -> <<[x EXCEPT !.sendT = SendTO], PutDg(o, CtrlT(x, "Token", "FF", x.own, -1), k)>>
     [] x.st = "Cing" -> <<[x EXCEPT !.sendT = SendTO],
-                          <<IF V7 THEN CtrlT(x, "Connect", x.their, x.own, -1) ELSE Ctrl(x, "Connect")>>>>
-    [] x.st = "Pend" -> <<[x EXCEPT !.sendT = SendTO], <<Ctrl(x, IF V7 THEN "Accept" ELSE "ConnectAccept")>>>>
-    [] x.st = "Onl"  -> IF CanSend(x) THEN Flush([x EXCEPT !.sendT = SendTO])
-                        ELSE <<[x EXCEPT !.sendT = SendTO], <<Ctrl(x, "KeepAlive")>>>>
-    [] OTHER -> <<x, <<>>>>
+                          PutDg(o, IF V7 THEN CtrlT(x, "Connect", x.their, x.own, -1) ELSE Ctrl(x, "Connect"), k)>>
+    [] x.st = "Pend" -> <<[x EXCEPT !.sendT = SendTO], PutDg(o, Ctrl(x, IF V7 THEN "Accept" ELSE "ConnectAccept"), k)>>
+    [] x.st = "Onl"  -> IF CanSend(x) THEN Flush([x EXCEPT !.sendT = SendTO], o, k)
+                        ELSE <<[x EXCEPT !.sendT = SendTO], PutDg(o, Ctrl(x, "KeepAlive"), k)>>
+    [] OTHER -> <<x, o>>
 
 \* ----------------------------------------------------------------- public calls
-\* Connection::connect (own token of the 0.7 client is drawn here)
-ConnectOp(x, own) ==
-  LET r == TickAction(IF V7 THEN [x EXCEPT !.st = "Tok", !.own = own] ELSE [x EXCEPT !.st = "Cing"])
-  IN R(r[1], r[2], <<>>, "ok")
+\* Connection::connect (own token of the 0.7 client is drawn here).  The state has changed and the timer is
+\* armed when the callback is asked: a refused connect request is repeated by tick() 500 ms later.
+ConnectOp(x, own, k) ==
+  LET r == TickAction(IF V7 THEN [x EXCEPT !.st = "Tok", !.own = own] ELSE [x EXCEPT !.st = "Cing"], O0, k)
+  IN Ret(r[1], r[2], <<>>, "-")
 
-\* Connection::send + queue.  c = [id, sz, v]
-SendOp(x, c) ==
+\* Connection::send + queue.  c = [id, sz, v].  When the flush that makes room fails, the chunk is queued all the
+\* same and the error of the flush is returned.
+SendOp(x, c, k) ==
   IF ~Carryable(c.sz, c.v) THEN R(x, <<>>, <<>>, "TooLongData")
-  ELSE LET f == IF CanFit(x.pkt, c.sz, c.v) THEN <<x, <<>>>> ELSE Flush(x)
+  ELSE LET f == IF CanFit(x.pkt, c.sz, c.v) THEN <<x, O0>> ELSE Flush(x, O0, k)
            x1 == f[1]
            x2 == IF c.v
                  THEN [x1 EXCEPT !.seq = Nxt(@),
@@ -112,29 +132,36 @@ SendOp(x, c) ==
                                  !.pkt = Append(@, [v |-> TRUE, seq |-> Nxt(x1.seq), rs |-> FALSE, id |-> c.id, sz |-> c.sz])]
                  ELSE [x1 EXCEPT !.pnv = Append(@, [v |-> FALSE, seq |-> 0, rs |-> FALSE, id |-> c.id, sz |-> c.sz]),
                                  !.pkt = Append(@, [v |-> FALSE, seq |-> 0, rs |-> FALSE, id |-> c.id, sz |-> c.sz])]
-       IN R(x2, f[2], <<>>, "ok")
+       IN Ret(x2, f[2], <<>>, "-")
 
 \* Connection::flush
-FlushOp(x) == LET f == Flush([x EXCEPT !.sendT = SendTO]) IN R(f[1], f[2], <<>>, "ok")
+FlushOp(x, k) == LET f == Flush([x EXCEPT !.sendT = SendTO], O0, k) IN Ret(f[1], f[2], <<>>, "-")
 
 ResendDue(x) == x.st = "Onl" /\ x.rq # <<>> /\ x.rq[Len(x.rq)].t = 0
 TickDue(x) == ResendDue(x) \/ x.sendT = 0
 \* Connection::tick
-TickOp(x) ==
-  LET r == IF ResendDue(x) THEN Resend(x)
-           ELSE IF x.sendT = 0 THEN TickAction([x EXCEPT !.sendT = Inactive])
-           ELSE <<x, <<>>>>
-  IN R(r[1], r[2], <<>>, "ok")
+TickOp(x, k) ==
+  LET r == IF ResendDue(x) THEN Resend(x, O0, k)
+           ELSE IF x.sendT = 0 THEN TickAction([x EXCEPT !.sendT = Inactive], O0, k)
+           ELSE <<x, O0>>
+  IN Ret(r[1], r[2], <<>>, "-")
 
-\* Connection::disconnect(reason of length r), allowed in every state but Disc (and Unc for 0.6)
-DisconnectOp(x, r) == R(Dead(x), <<CtrlT(x, "Close", OutTok(x), "-", r)>>, <<>>, "ok")
+\* Connection::disconnect(reason of length r), allowed in every state but Disc (and Unc for 0.6).
+\* The connection is closed whether or not the close message could be handed over.
+DisconnectOp(x, r, k) == Ret(Dead(x), PutDg(O0, CtrlT(x, "Close", OutTok(x), "-", r), k), <<>>, "-")
 
 \* Connection::send_connless (online only). c = [id, sz]
-ConnlessOp(x, c) ==
+ConnlessOp(x, c, k) ==
   IF ~ConnlessOk(c.sz) THEN R([x EXCEPT !.sendT = SendTO], <<>>, <<>>, "TooLongData")
-  ELSE R([x EXCEPT !.sendT = SendTO],
-         <<[k |-> "connless", id |-> c.id, sz |-> c.sz,
-            tok |-> IF V7 THEN x.their ELSE "no", rt |-> IF V7 THEN x.own ELSE "-"]>>, <<>>, "ok")
+  ELSE Ret([x EXCEPT !.sendT = SendTO],
+           PutDg(O0, [k |-> "connless", id |-> c.id, sz |-> c.sz,
+                    tok |-> IF V7 THEN x.their ELSE "no", rt |-> IF V7 THEN x.own ELSE "-"], k), <<>>, "-")
+
+\* Connection::reset (only when disconnected): a new object, the send timer included
+ResetOp(x) == R(Fresh, <<>>, <<>>, "ok")
+\* Connection::new_accept_token (0.6): an accepting endpoint that starts online with a token agreed on elsewhere
+\* (a stateless handshake); the send timer is armed
+AcceptTokenOp(tok) == R([Online(Fresh, tok, "no", "no") EXCEPT !.sendT = SendTO], <<>>, <<>>, "ok")
 
 \* time passes: all timers of the endpoint move d ms closer to their deadline
 Dec(t, d) == IF t = Inactive THEN Inactive ELSE IF t > d THEN t - d ELSE 0
@@ -163,8 +190,9 @@ TokenFixed(x) == IF V7 THEN x.st \notin {"Unc", "Disc"} ELSE (x.st \in {"Pend", 
 \* the protocol's explicit unauthenticated token request (0.7)
 TokenException(x, d) == V7 /\ d.k = "ctrl" /\ d.c = "Token" /\ x.st = "PCon" /\ d.tok = "FF"
 
-\* Connection::feed for datagram d.  `newtok`: the token the endpoint would draw now.
-FeedOp(x, d0, newtok) ==
+\* Connection::feed for datagram d.  `newtok`: the token the endpoint would draw now; k: see above.
+\* The result of feed() is a pair: the events are handed over even when the callback failed.
+FeedOp(x, d0, newtok, k) ==
   LET d1 == IF ~V7 /\ ~TokenMode /\ d0.k = "ctrl" /\ d0.c = "Connect" /\ d0.tok = "FF"
             THEN [d0 EXCEPT !.tok = "no"] ELSE d0     \* a vanilla peer / path drops the token extension
       \* an endpoint that agreed on "no token" tells the reader so: a trailing token is not parsed
@@ -173,34 +201,36 @@ FeedOp(x, d0, newtok) ==
   IN
   IF d.k = "connless" THEN
      IF ~V7 THEN R(x, <<>>, <<[e |-> "connless", id |-> d.id, sz |-> d.sz]>>, "ok")
-     ELSE IF x.st \notin {"Unc", "Disc"} /\ d.tok = x.own /\ x.st \in {"Cing", "Pend", "Onl"} /\ d.rt = x.their
-          THEN R(x, <<>>, <<[e |-> "connless", id |-> d.id, sz |-> d.sz]>>, "ok")
-          ELSE None(x)
+     \* 0.7: both tokens are compared, in every state; an endpoint that has no own token (Unc, Disc) or does not know
+     \* its peer's yet (Tok, PCon) accepts no connless datagram at all
+     ELSE IF x.st \in {"Unc", "Disc"} \/ d.tok # x.own THEN Warned(x, "ConnlessTokenMismatch")
+     ELSE IF x.st \notin {"Cing", "Pend", "Onl"} \/ d.rt # x.their THEN Warned(x, "ConnlessResponseTokenMismatch")
+     ELSE R(x, <<>>, <<[e |-> "connless", id |-> d.id, sz |-> d.sz]>>, "ok")
   ELSE
-  IF Expected(x) # "any" /\ d.tok # Expected(x) /\ ~TokenException(x, d) THEN None(x)
+  IF Expected(x) # "any" /\ d.tok # Expected(x) /\ ~TokenException(x, d) THEN Warned(x, "TokenMismatch")
   ELSE
   LET xa == IF x.st = "Onl" THEN AckChunks(x, d.ack) ELSE x IN
   IF d.k = "chunks" THEN
      LET xo == IF xa.st = "Pend" THEN Online(xa, xa.tok, xa.own, xa.their) ELSE xa IN
      IF xo.st # "Onl" THEN None(xa)
-     ELSE LET r == IF d.rr THEN Resend(xo) ELSE <<xo, <<>>>>
+     ELSE LET r == IF d.rr THEN Resend(xo, O0, k) ELSE <<xo, O0>>
               rc == Recv(d.chunks, r[1].ack, r[1].rr)
-          IN R([r[1] EXCEPT !.ack = rc[1], !.rr = rc[2]], r[2], rc[3], "ok")
+          IN Ret([r[1] EXCEPT !.ack = rc[1], !.rr = rc[2]], r[2], rc[3], "-")
   ELSE
   CASE d.c = "Connect" ->
          IF V7 THEN
             IF xa.st = "PCon"
-            THEN LET t == TickAction([xa EXCEPT !.st = "Pend", !.their = d.rt]) IN R(t[1], t[2], <<>>, "ok")
+            THEN LET t == TickAction([xa EXCEPT !.st = "Pend", !.their = d.rt], O0, k) IN Ret(t[1], t[2], <<>>, "-")
             ELSE None(xa)
          ELSE
             IF xa.st = "Unc" /\ d.tok \in {"no", "FF"}
-            THEN LET t == TickAction([xa EXCEPT !.st = "Pend", !.tok = IF d.tok = "FF" THEN newtok ELSE "no"])
-                 IN R(t[1], t[2], <<>>, "ok")
+            THEN LET t == TickAction([xa EXCEPT !.st = "Pend", !.tok = IF d.tok = "FF" THEN newtok ELSE "no"], O0, k)
+                 IN Ret(t[1], t[2], <<>>, "-")
             ELSE None(xa)
     [] d.c = "ConnectAccept" ->          \* 0.6 only
          IF ~V7 /\ xa.st = "Cing"
          THEN LET xo == Online(xa, d.tok, "no", "no")
-              IN R(xo, <<Ctrl(xo, "Accept")>>, <<[e |-> "ready"]>>, "ok")
+              IN Ret(xo, PutDg(O0, Ctrl(xo, "Accept"), k), <<[e |-> "ready"]>>, "-")
          ELSE None(xa)
     [] d.c = "Accept" ->
          IF V7 /\ xa.st = "Cing"
@@ -209,9 +239,9 @@ FeedOp(x, d0, newtok) ==
     [] d.c = "Token" ->                  \* 0.7 only
          IF ~V7 THEN None(xa) ELSE
          LET x1 == IF xa.st = "Unc" THEN [xa EXCEPT !.st = "PCon", !.own = newtok] ELSE xa IN
-         IF x1.st = "PCon" THEN R(x1, <<CtrlT(x1, "Token", d.rt, x1.own, -1)>>, <<>>, "ok")
+         IF x1.st = "PCon" THEN Ret(x1, PutDg(O0, CtrlT(x1, "Token", d.rt, x1.own, -1), k), <<>>, "-")
          ELSE IF x1.st = "Tok"
-              THEN LET t == TickAction([x1 EXCEPT !.st = "Cing", !.their = d.rt]) IN R(t[1], t[2], <<>>, "ok")
+              THEN LET t == TickAction([x1 EXCEPT !.st = "Cing", !.their = d.rt], O0, k) IN Ret(t[1], t[2], <<>>, "-")
               ELSE None(x1)
     [] d.c = "Close" -> R(Dead(xa), <<>>, <<[e |-> "disc", r |-> d.r]>>, "ok")
     [] OTHER -> None(xa)           \* KeepAlive
